@@ -117,9 +117,19 @@ def materialise(case, d, exe):
     if case.get('script') is not None:
         open(stub + '.script', 'w').write(case['script'])
         env['RECSOLVER_SCRIPT'] = stub + '.script'
-    argv = [exe] + list(case.get('flags_argv', []))
+    exe0 = exe
+    if case.get('exe_alias'):                      # e.g. rs.exe: BasicSolver::ParseOptions strips .exe/.app for <exe>_options
+        exe0 = os.path.join(d, case['exe_alias'])
+        if not os.path.lexists(exe0):
+            os.symlink(exe, exe0)
+    base = os.path.basename(exe0)
+    if base.endswith('.exe') or base.endswith('.app'):
+        base = base[:-4]
+    env = {k.replace('@EXE@', base): v for k, v in env.items()}
+    argv = [exe0] + list(case.get('flags_argv', []))
     if case.get('stub', True):
-        argv.append(stub + ('.nl' if case.get('stub_with_ext') else ''))
+        # cwd is the case directory: a relative stub has no dot anywhere in the argument
+        argv.append(('m' if case.get('stub_relative') else stub) + ('.nl' if case.get('stub_with_ext') else ''))
     if case.get('ampl'):
         argv.append('-AMPL')
     argv += [t.replace('@DIR@', d) for t, _ in case.get('options', [])]
@@ -143,6 +153,9 @@ def run_case(case, d, exe):
         r['sol'] = open(sp, encoding='latin-1', newline='').read()
     if os.path.exists(stub + '.reclog'):
         r['log'] = open(stub + '.reclog', errors='replace').read()
+    import glob as _g
+    r['alts'] = {os.path.basename(f): open(f, encoding='latin-1', newline='').read() for f in sorted(_g.glob(os.path.join(d, 'alt*.sol')))}
+    r['exported'] = sorted(os.path.basename(f) for f in _g.glob(os.path.join(d, 'export*.lp')))
     return r
 
 
@@ -167,6 +180,7 @@ def strip_echo(out):
     """stdout without the banner, backspaces, option echo lines ('  name = value'), the warnings block
     and the tables printed for wantsol&2 / wantsol&4: what remains is the solve message"""
     out = out.replace('\b', '')
+    out = re.sub(r'^recsolver 0\.0\.1: (?=  )', '', out)      # banner directly followed by an option echo
     lines = []
     skip = None
     for l in out.split('\n'):
@@ -189,6 +203,10 @@ def strip_echo(out):
             continue
         if l.startswith('  '):
             continue
+        if re.match(r'^(NL model read time|NL model conversion time|Setup time|Solution time|Output time) = ', l):
+            continue                       # tech:timing=1
+        if re.match(r'^AMPL/recsolver Optimizer', l):
+            continue                       # `version`
         lines.append(l)
     txt = '\n'.join(lines)
     txt = re.sub(r'^recsolver 0\.0\.1: (?=\n|$)', '', txt)
@@ -229,6 +247,8 @@ def observe(case, r):
         if case.get('info'):
             return {'kind': 'info'}
         rest = strip_echo(r['out'])
+        if not rest and 'exportonly.lp' in r.get('exported', []):
+            return {'kind': 'silent'}          # model exported, nothing solved, nothing reported
         if any(l.startswith('recsolver 0.0.1:') or 'injected ' in l or 'scripted ' in l for l in rest.split('\n')):
             shown = 1
         elif not rest:
@@ -248,6 +268,8 @@ def canon(o):
     k = o['kind']
     if k == 'info':
         return 'info exit=0'
+    if k == 'silent':
+        return 'silent exit=0'
     if k == 'sol':
         if not o['complete']:
             return 'sol complete=0 exit=0'
@@ -362,6 +384,11 @@ def oracle(case, sc, o):
             dev.append(('crash:VisitDisequality-constant-eq', 'crash (%s) in ProblemFlattener::VisitDisequality: a disequality whose sides differ by a constant '
                         '(x != x, y != c with c outside y\'s domain) folds to a constant and eq.get_representing_variable() indexes an empty vector' % d))
             return dev
+        if o['kind'] == 'crash' and o.get('frame') == 'HandleSolution' and 'store to null pointer' in d and sc.get('wants_nsol'):
+            dev.append(('crash:nsol-suffix-without-objective', 'crash (%s) in SolutionWriterImpl::HandleSolution: with sol:stub / sol:count the objective-kind '
+                        'suffixes nsol/npool are given a value although the problem has no objective (model without objective, or error before '
+                        'the problem is populated): SetValue(0, …) on an empty suffix' % d))
+            return dev
         if o['kind'] == 'crash' and o.get('frame') == 'name' and sc.get('names_first_empty'):
             dev.append(('crash:NameProvider-empty-first-line', 'crash (%s) in NameProvider::name: the first line of the .col/.row file is empty and *(pos1past-1) reads '
                         'one byte before the file mapping (layout dependent)' % d))
@@ -381,6 +408,16 @@ def oracle(case, sc, o):
             return dev
         dev.append(('%s:%s:%s' % (o['kind'], d, o.get('frame', '')), 'run ended with %s (%s)' % (o['kind'], d)))
         return dev
+    if ending == 'exported':
+        if o['kind'] == 'silent':
+            dev.append(('exportonly:%s' % ('ampl' if case.get('ampl') else 'standalone'),
+                        'tech:writemodelonly: the run ends with exit status 0, no .sol and no message at all'))
+        else:
+            dev.append(('exportonly:unexpected-outcome', 'tech:writemodelonly run ended with %s' % canon(o)))
+        return dev
+    if o['kind'] == 'silent':
+        dev.append(('model-run:nothing-reported', 'a model run ended with exit 0, no .sol and no message'))
+        return dev
     if ending == 'info':
         if o['kind'] != 'info':
             dev.append(('info:unexpected-outcome', 'info-only invocation ended with %s' % canon(o)))
@@ -390,6 +427,20 @@ def oracle(case, sc, o):
         return dev
     cause = cause_of(ending)
     rz = ending[1] if ending else None
+    # alternative-solution files <solstub>N.sol: each one complete, with the header's dimensions, and as many as scripted
+    if sc.get('alts') is not None:
+        hd = sc['dims']
+        for name, text in sorted(sc['alts'].items()):
+            ps = parse_sol_strict(text)
+            if ps is None:
+                dev.append(('altsol:malformed', 'alternative solution file %s is truncated / not parseable: %r' % (name, text[:80])))
+            elif hd is not None and (ps['ncons'], ps['nvars']) != tuple(hd):
+                dev.append(('altsol:dims', '%s says %d constraints / %d variables, NL header says %d / %d' % (name, ps['ncons'], ps['nvars'], hd[0], hd[1])))
+            elif ps['nprimals'] not in (0, ps['nvars']) or ps['nduals'] not in (0, ps['ncons']):
+                dev.append(('altsol:blocks', '%s: value blocks neither empty nor full' % name))
+        want = sc.get('n_altsol_expected')
+        if want is not None and len(sc['alts']) != want:
+            dev.append(('altsol:count', '%d alternative solution files written, %d reported by the solver' % (len(sc['alts']), want)))
     if o['kind'] == 'sol':
         if not o['complete']:
             dev.append(('writeerr:devfull' if sc['outpath'] == 'devfull' else 'solfile:malformed',
@@ -463,9 +514,9 @@ def scenario_line(case, ending_fault, dims, ans, partial=(0, 0)):
     else:
         st, rz, c = ending_fault
         f = '%s:%s' % (st, rz) + (':%d' % c if rz == 'withCode' else '')
-    return 'run %s %d %d %s %d %d %d %d %d %d %d %s %d %d %d' % (
+    return 'run %s %d %d %s %d %d %d %d %d %d %d %d %s %d %d %d' % (
         flags, 1 if case.get('stub', True) else 0, 1 if case.get('ampl') else 0, opts, 1 if case.get('objno_big') else 0,
-        dims[0], dims[1], partial[0], partial[1], can_open, can_flush, f, ans[0], 1 if ans[1] else 0, 1 if ans[2] else 0)
+        1 if case.get('just_export') else 0, dims[0], dims[1], partial[0], partial[1], can_open, can_flush, f, ans[0], 1 if ans[1] else 0, 1 if ans[2] else 0)
 
 
 def py_model_ending(case, fault):
@@ -495,6 +546,10 @@ def py_model_ending(case, fault):
         return fault
     if case.get('objno_big'):
         return ('options', 'optionError', None)
+    if before(STAGES.index('solve')):
+        return fault
+    if case.get('just_export'):
+        return 'exported'
     if fault is not None and fault[0] == 'suffixes' and fault[1] != 'foreign':
         return None
     return fault
@@ -535,7 +590,7 @@ class CaseGen:
         if r.chance(1, 40):
             fl.append((r.choice(['-x', '-q', '-sx', '-']), 'x'))
         if r.chance(1, 40):
-            fl.append((r.choice(['-v', '-?', '-=acc', '-!', '-c', '-a']), 'i'))
+            fl.append((r.choice(['-v', '-?', '-=acc', '-=', '-=zzznomatch', '-!', '-c', '-a']), 'i'))
             c['info'] = True
         r_fl = fl
         c['flags_argv'] = [a for a, _ in r_fl]
@@ -559,6 +614,10 @@ class CaseGen:
             c['ampl'] = False
         if r.chance(1, 10):
             c['stub_with_ext'] = True
+        if r.chance(1, 8):
+            c['stub_relative'] = True          # argument without any dot / directory part (cwd = case directory)
+        if r.chance(1, 15):
+            c['exe_alias'] = r.choice(['rs.exe', 'rs.app', 'rs'])
 
     def add_options(self, c, p_bad=(1, 4)):
         r = self.r
@@ -592,14 +651,18 @@ class CaseGen:
         if opts and r.chance(1, 4):
             k = r.rint(1, len(opts))
             envopts, opts = opts[:k], opts[k:]
-            var = r.choice(['mp_options', 'recsolver_options'])
+            var = r.choice(['mp_options', 'recsolver_options', '@EXE@_options'])
             c['env'][var] = ' '.join(t for t, _ in envopts)
+            if var == '@EXE@_options' and r.chance(1, 2):
+                # <exe>_options takes precedence: <solver>_options is then not read at all (not even a bad token in it)
+                c['env']['recsolver_options'] = r.choice(['foo=1', 'wantsol=8', 'cvt:bigM=abc'])
         if not c.get('ampl') and r.chance(1, 12) and c.get('stub', True) and opts:
             # -AMPL not directly after the stub: it is then an (unknown) option
             opts.append(('-AMPL', 'b'))
         if not c.get('stub', True):
             opts, envopts = [], envopts     # without a stub the first assignment would be taken as the stub
         c['options'] = opts
+        c['all_opts_env'] = envopts
         c['all_opts'] = envopts + opts
         # objno beyond the number of objectives (the last assignment wins): raised after all options are parsed
         last = None
@@ -704,6 +767,42 @@ class CaseGen:
             c['inject'] = (site, kind, code)
         c['synthetic'] = True
 
+    def add_extras(self, c):
+        """model export (tech:writemodel / writemodelonly) and alternative solutions (sol:stub, sol:count + scripted `altsol N`);
+        only where nothing else is known to go wrong after the options"""
+        r = self.r
+        if c.get('natural') != 'none' or not c.get('stub', True):
+            return
+        k = r.below(10)
+        opts = c['options']
+        pos = r.rint(0, len(opts))
+        if k == 0:
+            opts.insert(pos, (r.choice(['tech:writemodel=@DIR@/export.lp', 'writeprob=@DIR@/export2.lp', 'tech:exportfile=@DIR@/export3.lp']), 'o'))
+        elif k == 1:
+            opts.insert(pos, (r.choice(['tech:writemodelonly=@DIR@/exportonly.lp', 'justwriteprob=@DIR@/exportonly.lp']), 'o'))
+            c['just_export'] = True
+        elif k == 2:
+            opts.insert(pos, ('tech:writemodel=@DIR@/no/such/dir/export.lp', 'o'))
+            c['natural'] = ('extras', 'plain', None)
+        elif k in (3, 4) and c.get('script') is None and not c.get('inject'):
+            n = r.choice([0, 1, 2, 3])
+            code = r.choice([0, 0, 2, 100, 400, 567])
+            c['script'] = 'code %d\nmsg scripted answer\naltsol %d\n' % (code, n)
+            c['answer'] = (code, False, False)
+            what = r.below(4)
+            if what == 0:
+                opts.insert(pos, ('sol:count=1', 'o'))
+                c['altsol'] = 0                      # counted, but no stub: no files
+            elif what == 1:
+                opts.insert(pos, ('sol:stub=@DIR@/no/such/dir/alt', 'o'))
+                c['altsol'] = 0
+                if n > 0:
+                    c['natural'] = ('solve', 'systemError', None)
+            else:
+                opts.insert(pos, (r.choice(['sol:stub=@DIR@/alt', 'solstub=@DIR@/alt']), 'o'))
+                c['altsol'] = n
+        c['all_opts'] = c.get('all_opts_env', []) + c['options']
+
     def add_answer(self, c):
         """arbitrary solve codes from the scripted solver (no vectors: sizes of the solver-side model are not known here)"""
         r = self.r
@@ -771,7 +870,12 @@ class CaseGen:
         elif fam == 'bigm':
             c = self.base('bigm', self.g.model_bigm())
             c['natural'] = None
-            c['env']['RECSOLVER_ACCEPT'] = 'LinConRange,LinConLE,LinConEQ,LinConGE'
+            if r.chance(1, 3):
+                # indicators 'accepted but not recommended': conversion is tried, a ConstraintConversionFailure becomes a warning
+                c['env']['RECSOLVER_ACCEPT'] = 'LinConRange,LinConLE,LinConEQ,LinConGE,IndicatorLinConLE,IndicatorLinConGE,IndicatorLinConEQ'
+                c['bigm_acc1'] = True
+            else:
+                c['env']['RECSOLVER_ACCEPT'] = 'LinConRange,LinConLE,LinConEQ,LinConGE'
         elif fam == 'badheader':
             c = self.base('badheader', self.g.model_lp())
             self.broken_header(c)
@@ -788,11 +892,15 @@ class CaseGen:
             c['natural'] = 'none'
         self.add_mode(c)
         self.add_options(c)
+        if c.get('bigm_acc1') and c.get('stub', True):
+            c['options'] = [('acc:indle=1', 'o'), ('acc:indge=1', 'o'), ('acc:indeq=1', 'o')] + c['options']
+            c['all_opts'] = c.get('all_opts_env', []) + c['options']
         self.add_names(c)
         self.add_outpath(c)
         if fam in ('lp', 'mix', 'names', 'infeasible', 'bigm', 'unsupported'):
             self.add_fault(c)
             self.add_answer(c)
+        self.add_extras(c)
         return c
 
     def malformed(self):
@@ -932,6 +1040,45 @@ def corpus_cases(cg):
         c = mk('optfile-standalone:%s' % kind, ampl=False)
         c['options'] = [cg.optfile(c, kind)]
         c['all_opts'] = c['options']
+    # round 3: export, alternative solutions, exe-name option variable, relative stub, multi-objective
+    mk('export', options=[('tech:writemodel=@DIR@/export.lp', 'o')])
+    mk('counterexample_exportonly', options=[('tech:writemodelonly=@DIR@/exportonly.lp', 'o')], just_export=True)
+    mk('exportonly_standalone', ampl=False, options=[('justwriteprob=@DIR@/exportonly.lp', 'o')], just_export=True)
+    mk('exportonly_after_bad', options=[('foo=1', 'b'), ('tech:writemodelonly=@DIR@/exportonly.lp', 'o')], just_export=True)
+    mk('exportonly_fault_before', options=[('tech:writemodelonly=@DIR@/exportonly.lp', 'o')], just_export=True,
+       env={'RECSOLVER_FAULT': 'convert:plain'}, inject=('convert', 'plain', None), synthetic=True)
+    mk('exportonly_fault_after', options=[('tech:writemodelonly=@DIR@/exportonly.lp', 'o')], just_export=True,
+       env={'RECSOLVER_FAULT': 'solve:plain'}, inject=('solve', 'plain', None), synthetic=True)
+    mk('export_unwritable', options=[('tech:writemodel=@DIR@/no/such/dir/export.lp', 'o')], natural=('extras', 'plain', None))
+    for n in (0, 1, 3):
+        mk('altsol%d' % n, options=[('sol:stub=@DIR@/alt', 'o')], script='code 0\nmsg s\naltsol %d\n' % n, answer=(0, False, False), altsol=n)
+    mk('altsol_standalone', ampl=False, options=[('sol:stub=@DIR@/alt', 'o'), ('wantsol=1', ('w', 1))], script='code 400\nmsg s\naltsol 2\n',
+       answer=(400, False, False), altsol=2)
+    mk('altsol_round', options=[('sol:stub=@DIR@/alt', 'o'), ('mip:round=7', 'o')], script='code 0\nmsg s\naltsol 2\n', answer=(0, False, False), altsol=2)
+    mk('iis_suffix_table', options=[('alg:iisfind=1', 'o')], script='code 200\nmsg s\niisvar 4 0\niiscon 4\n', answer=(200, False, False))
+    mk('altsol_count_only', options=[('sol:count=1', 'o')], script='code 0\nmsg s\naltsol 2\n', answer=(0, False, False), altsol=0)
+    mk('altsol_unwritable', options=[('sol:stub=@DIR@/no/such/dir/alt', 'o')], script='code 0\nmsg s\naltsol 2\n', answer=(0, False, False),
+       altsol=0, natural=('solve', 'systemError', None))
+    mk('altsol_then_throw', options=[('sol:stub=@DIR@/alt', 'o')], script='code 250\nmsg s\naltsol 2\nthrow 2\n', answer=(250, False, False),
+       altsol=2, inject=('solve', 'withCode', 250), synthetic=True)
+    m0 = nlgen.Model(); m0.var(0, 10); m0.var(0, 10, True); m0.con(1, None, {0: 1, 1: 1})
+    c = cg.base('corpus:counterexample_nsol_no_objective', m0); c['natural'] = 'none'; c['options'] = [('sol:count=1', 'o')]; c['all_opts'] = c['options']; out.append(c)
+    mk('nsol_with_option_error', options=[('sol:stub=@DIR@/alt', 'o'), ('foo=1', 'b')])
+    mk('exe_options_var', env={'@EXE@_options': 'cvt:bigM=5', 'recsolver_options': 'foo=1'}, all_opts=[('cvt:bigM=5', 'o')])
+    mk('exe_options_var_bad', env={'@EXE@_options': 'foo=1'}, all_opts=[('foo=1', 'b')])
+    mk('exe_alias_exe', exe_alias='rs.exe', env={'@EXE@_options': 'foo=1'}, all_opts=[('foo=1', 'b')])
+    mk('exe_alias_app', exe_alias='rs.app', env={'@EXE@_options': 'wantsol=1'}, all_opts=[('wantsol=1', ('w', 1))], ampl=False)
+    mk('stub_relative', stub_relative=True)
+    mk('stub_relative_ext', stub_relative=True, stub_with_ext=True)
+    mk('stub_relative_bad', stub_relative=True, options=[('foo=1', 'b')])
+    m = lp(); m.obj('max', {0: 1}); m.obj('min', {1: 3})
+    m.suffixes.append({'name': 'objpriority', 'kind': 2, 'float': False, 'vals': {0: 1, 1: 2, 2: 3}})
+    m.suffixes.append({'name': 'objweight', 'kind': 2, 'float': True, 'vals': {0: 1, 1: 2, 2: 1}})
+    m.suffixes.append({'name': 'objabstol', 'kind': 2, 'float': True, 'vals': {0: 1}})
+    m.suffixes.append({'name': 'objreltol', 'kind': 2, 'float': True, 'vals': {0: 1}})
+    m.suffixes.append({'name': 'zork', 'kind': 0, 'float': False, 'vals': {0: 2}})
+    for o in ([('obj:multi=1', 'o')], [('obj:multi=1', 'o'), ('tech:reporttimes=1', 'o'), ('tech:timing=1', 'o')], [('objno=2', 'o')], []):
+        c = cg.base('corpus:multiobj', m); c['natural'] = 'none'; c['options'] = o; c['all_opts'] = o; out.append(c)
     for t in c09gen.OPT_OK:
         mk('opt-ok:' + t, options=[(t, 'o')])
     for t in c09gen.OPT_BAD:
@@ -987,12 +1134,301 @@ def evaluate(case, r):
     return o, fault, inferred
 
 
+# ------------------------------------------------------------------------------------------ model arms
+ALL_ARMS = (['parseFlags.' + x for x in ('nil', 'wantsol', 'noecho', 'dashdash', 'info', 'invalid')] +
+            ['parseOpts.' + x for x in ('nil', 'wantsol', 'ok', 'bad', 'invalidValue')] +
+            ['expandOpts.' + x for x in ('tok', 'optfile-read', 'optfile-readFails')] +
+            ['ending.' + x for x in ('fault-ctor/init', 'flags-stop', 'flags-throw', 'no-stub', 'ampl', 'no-ampl', 'fault-openNL/header',
+                                     'opts-raise', 'fault-options-window', 'objnoTooBig', 'fault-populate..extras', 'justExport',
+                                     'fault-solve/report', 'suffixes-swallowed', 'suffixes-foreign', 'finished')] +
+            ['fail.insideRun', 'fail.ctor-mpError', 'fail.ctor-stdExn', 'fail.ctor-foreign'] +
+            ['reportError.foreign', 'reportError.handler', 'reportError.no-handler'] +
+            ['handleSolution.file-written', 'handleSolution.file-wanted-not-writable', 'handleSolution.no-file-wanted'] +
+            ['errDims.dimsKnown', 'errDims.populate', 'errDims.zero'] +
+            ['reportCode.mpError>=100', 'reportCode.mpError<100', 'reportCode.stdExn'] +
+            ['conclude.finished-retry-after-write-error', 'conclude.exported', 'conclude.info'] +
+            ['suppressMsg.true', 'suppressMsg.false'] +
+            ['Raise.' + k for k in KINDS + ['wrappedInfeas']] + ['Stage.' + st for st in STAGES])
+EXIT_CODE_OF = {'plain': -1, 'infeas': 200, 'wrappedInfeas': 200, 'solCheck': 150, 'unsupported': 1, 'optionError': -1, 'readError': 1, 'fmtError': 1}
+
+
+def model_arms(c, fault, ending, wantsol_eff=None):
+    """which arms of the Lean model functions this scenario exercises (recomputed from the scenario fed to the driver;
+    used only for the coverage accounting of the correspondence stream)"""
+    A = set()
+    stopped = None
+    for f in c.get('flags_tok', []):
+        A.add('parseFlags.' + {'s': 'wantsol', 'e': 'noecho', 'd': 'dashdash', 'i': 'info', 'x': 'invalid'}[f])
+        if f in 'dix':
+            stopped = f
+            break
+    if stopped is None:
+        A.add('parseFlags.nil')
+    early = fault is not None and STAGES.index(fault[0]) < 2
+    if early:
+        A.add('ending.fault-ctor/init')
+    elif stopped == 'i':
+        A.add('ending.flags-stop')
+    elif stopped == 'x':
+        A.add('ending.flags-throw')
+    elif not c.get('stub', True):
+        A.add('ending.no-stub')
+    else:
+        A.add('ending.ampl' if c.get('ampl') else 'ending.no-ampl')
+        if fault is not None and STAGES.index(fault[0]) < 4:
+            A.add('ending.fault-openNL/header')
+        else:
+            for _, t in c.get('all_opts', []):
+                if not isinstance(t, str) and t[0] == 'F':
+                    A.add('expandOpts.optfile-readFails' if t[1] else 'expandOpts.optfile-read')
+                else:
+                    A.add('expandOpts.tok')
+            raised = False
+            for t in expand_toks(c.get('all_opts', [])):
+                A.add('parseOpts.' + ({'o': 'ok', 'b': 'bad', 'v': 'invalidValue'}[t] if isinstance(t, str) else 'wantsol'))
+                if t in ('b', 'v'):
+                    raised = True
+                    break
+            if raised:
+                A.add('ending.opts-raise')
+            else:
+                A.add('parseOpts.nil')
+                if fault is not None and fault[0] == 'options':
+                    A.add('ending.fault-options-window')
+                elif c.get('objno_big'):
+                    A.add('ending.objnoTooBig')
+                elif fault is not None and STAGES.index(fault[0]) < STAGES.index('solve'):
+                    A.add('ending.fault-populate..extras')
+                elif c.get('just_export'):
+                    A.add('ending.justExport'); A.add('conclude.exported')
+                elif fault is not None and fault[0] == 'suffixes':
+                    A.add('ending.suffixes-foreign' if fault[1] == 'foreign' else 'ending.suffixes-swallowed')
+                elif fault is not None:
+                    A.add('ending.fault-solve/report')
+                else:
+                    A.add('ending.finished')
+    if ending == 'info':
+        A.add('conclude.info')
+    op = c.get('outpath', 'ok')
+    writable = op == 'ok'
+    if isinstance(ending, tuple):
+        st, rz, code = ending
+        A.add('Raise.' + rz); A.add('Stage.' + st)
+        kind = 'foreign' if rz == 'foreign' else ('stdExn' if rz in ('stdExn', 'systemError') else 'mpError')
+        if st == 'ctor':
+            A.add('fail.ctor-' + kind)
+        else:
+            A.add('fail.insideRun')
+            if kind == 'foreign':
+                A.add('reportError.foreign')
+            elif st in NO_HANDLER:
+                A.add('reportError.no-handler')
+            else:
+                A.add('reportError.handler')
+                A.add('errDims.' + ('zero' if st == 'options' else 'populate' if st == 'populate' else 'dimsKnown'))
+                if kind == 'stdExn':
+                    A.add('reportCode.stdExn')
+                else:
+                    ec = code if rz == 'withCode' else EXIT_CODE_OF.get(rz, -1)
+                    A.add('reportCode.mpError>=100' if ec is not None and ec >= 100 else 'reportCode.mpError<100')
+    return A, writable
+
+
+# ------------------------------------------------------------------------------------------ coverage mode
+ANCHOR_FILES = ['include/mp/backend-app.h', 'include/mp/backend-std.h', 'include/mp/backend-mip.h', 'include/mp/backend-with-mm.h',
+                'include/mp/model-mgr-with-pb.h', 'include/mp/solver-io.h', 'include/mp/solver-app-base.h', 'src/solver.cc',
+                'include/mp/error.h', 'include/mp/flat/converter.h', 'include/mp/flat/problem_flattener.h',
+                'include/mp/flat/redef/redef_base.h', 'include/mp/sol.h', 'include/mp/basic-expr-visitor.h']
+# functions of the mechanisms named in the property's anchors (+ what they call on the way to the outcome)
+MECH = re.compile(r'(BackendApp::(Run|Init)\b|RunBackendApp|::ReportError\(int|::HandleSolution|::HandleFeasibleSolution|MakeProperSolutionHandler|'
+                  r'::ReadNLModel|::ReadNLFile|::ReadNames|::SetObjNames|SolverNLHandlerImpl.*::OnHeader|::ConvertItems|::ConvertModel\b|VisitUnsupported|'
+                  r'SolverAppOptionParser::|BasicSolver::ParseOptions|BasicSolver::ParseOptionString|UseOptionFile|ProcessLines_AvoidComments|'
+                  r'WriteSolFile|WriteSuffixes|::RunFromNLFile|::ReadNL\b|StdBackend.*::Report\b|::ReportResults|::ReportSolution2AMPL|::ReportSolution\b|'
+                  r'::ReportIntermediateSolution|::ReportSuffixes|::Abort|BasicSolver::ToString|::AddWarning|::GetWarnings|::ConvertLogicalCon|'
+                  r'mp::Error::|UnsupportedError|MakeUnsupportedError|OptionError|ConstraintConversionFailure|::InputExtras|::InputStdExtras|PrintSolution)')
+
+
+def coverage_build(ck, covdir):
+    """recsolver + libmp compiled with --coverage -O0 (no sanitizers); objects cached by preprocessed text"""
+    from concurrent.futures import ThreadPoolExecutor
+    os.makedirs(covdir, exist_ok=True)
+    srcs = [os.path.join(recsolver.RDIR, f) for f in ['recmain.cc', 'recmodelmgr.cc', 'recmodelapi.cc', 'recbackend.cc']] + \
+           [os.path.join(REPO, f) for f in ck.LIBMP_SRC]
+    inc = ['-I' + os.path.join(REPO, 'include'), '-I' + os.path.join(REPO, 'src'), '-I' + os.path.join(VERIF, 'harness'), '-I' + recsolver.RDIR]
+    defs = ['-DNDEBUG', '-DMP_DATE=20240320', '-DMP_SYSINFO="Linux x86_64"', '-DMP_USE_ATOMIC', '-DMP_USE_HASH', '-DMP_USE_UNIQUE_PTR', '-DAMPL_MP_VERIF']
+    base = ['g++', '-std=c++17', '-w', '-O0', '-g', '--coverage'] + defs + inc
+
+    def one(src):
+        name = os.path.basename(src).replace('.', '_')
+        obj = os.path.join(covdir, name + '.o')
+        rc, out, err = sh(base + ['-E', '-P', src], timeout=900)
+        if rc != 0:
+            raise RuntimeError(err[-2000:])
+        h = hashlib.sha256((' '.join(base) + out).encode()).hexdigest()
+        stamp = obj + '.hash'
+        if not (os.path.exists(obj) and os.path.exists(stamp) and open(stamp).read() == h):
+            rc, out, err = sh(base + ['-c', src, '-o', obj], timeout=3000)
+            if rc != 0:
+                raise RuntimeError(err[-3000:])
+            open(stamp, 'w').write(h)
+        return obj
+    with ThreadPoolExecutor(max_workers=8) as ex:
+        objs = list(ex.map(one, srcs))
+    exe = os.path.join(covdir, 'recsolver_cov')
+    rc, out, err = sh(['g++', '--coverage'] + objs + ['-o', exe, '-ldl'], timeout=1800)
+    if rc != 0:
+        raise RuntimeError(err[-3000:])
+    return exe, objs
+
+
+def coverage_collect(covdir):
+    """gcov-12 -b -c (json) on every .gcda; aggregated per anchored file"""
+    import gzip, glob as _g
+    lines = {}      # (file, line) -> count
+    branches = {}   # (file, line, idx) -> count     (exception edges excluded)
+    funcs = {}      # (file, start_line, end_line, name) -> count
+    for gcda in sorted(_g.glob(os.path.join(covdir, '*.gcda'))):
+        rc, out, err = sh(['gcov-12', '-b', '-c', '--json-format', '--stdout', '-m', gcda], cwd=covdir, timeout=1800)
+        if rc != 0 or not out.strip():
+            continue
+        for doc in out.strip().split('\n'):
+            try:
+                j = json.loads(doc)
+            except Exception:
+                continue
+            for f in j.get('files', []):
+                fn = os.path.normpath(os.path.join(covdir, f['file'])) if not os.path.isabs(f['file']) else os.path.normpath(f['file'])
+                if not fn.startswith(os.path.normpath(REPO) + os.sep):
+                    continue
+                rel = os.path.relpath(fn, REPO)
+                if rel not in ANCHOR_FILES:
+                    continue
+                for fu in f.get('functions', []):
+                    k = (rel, fu['start_line'], fu['end_line'], fu.get('demangled_name') or fu['name'])
+                    funcs[k] = funcs.get(k, 0) + fu['execution_count']
+                for l in f.get('lines', []):
+                    k = (rel, l['line_number'])
+                    lines[k] = lines.get(k, 0) + l['count']
+                    bi = 0
+                    for b in l.get('branches', []):
+                        if b.get('throw'):
+                            continue
+                        kb = (rel, l['line_number'], bi)
+                        branches[kb] = branches.get(kb, 0) + b['count']
+                        bi += 1
+    return lines, branches, funcs
+
+
+def short_fn(name):
+    t, prev = name, None
+    while prev != t:
+        prev = t
+        t = re.sub(r'<[^<>]*>', '', t)
+    return re.sub(r'\(.*$', '', t)[-70:]
+
+
+def coverage_report(lines, branches, funcs, n_cases, label):
+    rep = {'label': label, 'cases': n_cases, 'files': {}, 'mechanism': {}}
+    tot_l = tot_lc = tot_b = tot_bc = 0
+    for rel in ANCHOR_FILES:
+        L = [(k, v) for k, v in lines.items() if k[0] == rel]
+        B = [(k, v) for k, v in branches.items() if k[0] == rel]
+        if not L:
+            rep['files'][rel] = None
+            continue
+        lc, bc = sum(1 for _, v in L if v), sum(1 for _, v in B if v)
+        rep['files'][rel] = {'lines': len(L), 'lines_hit': lc, 'line_cov': round(100.0 * lc / len(L), 1),
+                             'branches': len(B), 'branches_hit': bc, 'branch_cov': round(100.0 * bc / max(1, len(B)), 1)}
+        tot_l += len(L); tot_lc += lc; tot_b += len(B); tot_bc += bc
+    rep['anchor_line_cov'] = round(100.0 * tot_lc / max(1, tot_l), 1)
+    rep['anchor_branch_cov'] = round(100.0 * tot_bc / max(1, tot_b), 1)
+    # mechanism functions: merged over instantiations by (file, start, end, short name)
+    mech = {}
+    for (rel, a, b, name), cnt in funcs.items():
+        if not MECH.search(name):
+            continue
+        k = (rel, a, b, short_fn(name))
+        mech[k] = mech.get(k, 0) + cnt
+    ml = mlc = mb = mbc = 0
+    unc_funcs, unc_lines, unc_br = [], {}, {}
+    for (rel, a, b, sn), cnt in sorted(mech.items()):
+        if cnt == 0:
+            unc_funcs.append('%s:%d %s' % (rel, a, sn))
+        for (f, ln), v in lines.items():
+            if f == rel and a <= ln <= b:
+                ml += 1; mlc += 1 if v else 0
+                if cnt and not v:
+                    unc_lines.setdefault('%s %s' % (rel, sn), set()).add(ln)
+        for (f, ln, bi), v in branches.items():
+            if f == rel and a <= ln <= b:
+                mb += 1; mbc += 1 if v else 0
+                if cnt and not v and lines.get((f, ln)):
+                    unc_br.setdefault('%s %s' % (rel, sn), set()).add(ln)
+    rep['mechanism'] = {'functions': len(mech), 'functions_hit': sum(1 for v in mech.values() if v),
+                        'line_cov': round(100.0 * mlc / max(1, ml), 1), 'branch_cov': round(100.0 * mbc / max(1, mb), 1),
+                        'uncovered_functions': unc_funcs,
+                        'uncovered_lines': {k: sorted(v) for k, v in sorted(unc_lines.items())},
+                        'lines_with_untaken_branch': {k: sorted(v) for k, v in sorted(unc_br.items())}}
+    return rep
+
+
+def coverage_mode(ck):
+    """VERIF_COVERAGE=1 ./check C09 : quick-tier stream through a gcov build; writes design_notes/coverage/C09.json (+ raw report)"""
+    covdir = os.path.join(BUILD, 'cov')
+    exe, objs = coverage_build(ck, covdir)
+    import glob as _g
+    for f in _g.glob(os.path.join(covdir, '*.gcda')):
+        os.remove(f)
+    work = os.path.join(BUILD, 'c09.covwork')
+    shutil.rmtree(work, ignore_errors=True)
+    os.makedirs(work)
+    cases = build_cases(ck, work, 'quick')
+    with ThreadPoolExecutor(max_workers=6) as ex:
+        results = list(ex.map(lambda c: run_case(c, os.path.join(work, 'c%d' % c['id']), exe), cases))
+    lines, branches, funcs = coverage_collect(covdir)
+    label = os.environ.get('VERIF_COVERAGE_LABEL', 'run')
+    rep = coverage_report(lines, branches, funcs, len(cases), label)
+    out = os.path.join(VERIF, 'design_notes', 'coverage')
+    os.makedirs(out, exist_ok=True)
+    json.dump(rep, open(os.path.join(out, 'C09.%s.json' % label), 'w'), indent=1)
+    json.dump({'anchor_line_cov': rep['anchor_line_cov'], 'anchor_branch_cov': rep['anchor_branch_cov'],
+               'mechanism_line_cov': rep['mechanism']['line_cov'], 'mechanism_branch_cov': rep['mechanism']['branch_cov'],
+               'cases': len(cases), 'label': label, 'seed': ck.seed}, open(os.path.join(out, 'C09.json'), 'w'), indent=1)
+    ck.log('coverage[%s]: anchors line %.1f%% branch %.1f%%; mechanism functions %d/%d, line %.1f%% branch %.1f%%' % (
+        label, rep['anchor_line_cov'], rep['anchor_branch_cov'], rep['mechanism']['functions_hit'], rep['mechanism']['functions'],
+        rep['mechanism']['line_cov'], rep['mechanism']['branch_cov']))
+    for rel, v in rep['files'].items():
+        ck.log('  %-45s %s' % (rel, 'not instantiated' if v is None else 'line %5.1f%% (%d/%d)  branch %5.1f%% (%d/%d)' % (
+            v['line_cov'], v['lines_hit'], v['lines'], v['branch_cov'], v['branches_hit'], v['branches'])))
+    shutil.rmtree(work, ignore_errors=True)
+    ck.cov.update({'evaluations': len(cases), 'distinct_nontrivial': 0, 'rule': 'coverage mode: no verdicts', 'exhaustive': False})
+    ck.sample('coverage mode')
+
+
+def build_cases(ck, work, tier):
+    cg = CaseGen(ck.seed, work)
+    cases = corpus_cases(cg)
+    n_corpus = len(cases)
+    n_rand, n_mal = (700, 300) if tier == 'quick' else (9000, 4000)
+    for _ in range(n_rand):
+        cases.append(cg.case())
+    for _ in range(n_mal):
+        cases.append(cg.malformed())
+    for i, c in enumerate(cases):
+        c['id'] = i
+        c.setdefault('all_opts', c.get('options', []))
+    ck.log('%d cases (%d corpus, %d structured, %d malformed)' % (len(cases), n_corpus, n_rand, n_mal))
+    return cases
+
+
 def run(ck):
     ck.level = 'proof'
+    if os.environ.get('VERIF_COVERAGE'):
+        return coverage_mode(ck)
     ck.notes.append('PARTIAL: proof about the hand model of the outcome decision logic + sampled correspondence with the real driver; '
                     'termination / crash freedom of the C++ is observed only (ASan+UBSan, timeout) on the generated inputs')
     proof_ok, failing = ck.proof_stage('MpVerif.C09.Props', 'MpVerif/C09/Props.lean', 'C09_',
-                                        ['MpVerif/C09/*.lean'], expect_min=33)
+                                        ['MpVerif/C09/*.lean'], expect_min=36)
     ck.log('proof stage: ok=%s failing=%s' % (proof_ok, failing[:8]))
     if ck.tier == 'thorough' and proof_ok:
         bad = ck.leanchecker(['MpVerif.C09.Props'])
@@ -1005,18 +1441,7 @@ def run(ck):
     work = os.path.join(BUILD, 'c09.work')
     shutil.rmtree(work, ignore_errors=True)
     os.makedirs(work)
-    cg = CaseGen(ck.seed, work)
-    cases = corpus_cases(cg)
-    n_corpus = len(cases)
-    n_rand, n_mal = (700, 300) if ck.tier == 'quick' else (9000, 4000)
-    for _ in range(n_rand):
-        cases.append(cg.case())
-    for _ in range(n_mal):
-        cases.append(cg.malformed())
-    for i, c in enumerate(cases):
-        c['id'] = i
-        c.setdefault('all_opts', c.get('options', []))
-    ck.log('%d cases (%d corpus, %d structured, %d malformed)' % (len(cases), n_corpus, n_rand, n_mal))
+    cases = build_cases(ck, work, ck.tier)
 
     def one(c):
         return run_case(c, os.path.join(work, 'c%d' % c['id']), exe)
@@ -1045,6 +1470,7 @@ def run(ck):
     distinct = set()
     n_cmp = n_dis = n_inferred = n_latent = 0
     inferred_dis = []
+    arms = {}
 
     def bump(h, k):
         hist[h][k] = hist[h].get(k, 0) + 1
@@ -1066,6 +1492,23 @@ def run(ck):
         if ending not in (None, 'info'):
             rows.add((ending[0], ending[1]))
         distinct.add((fam, obs_s, str(ending), c.get('outpath'), bool(c.get('ampl'))))
+        A, _w = model_arms(c, fault, ending)
+        ms = ml.split(' | ')[0]
+        if isinstance(ending, tuple) or ending is None:
+            if ms.startswith('sol '):
+                A.add('handleSolution.file-written')
+            elif ms.startswith('stdout '):
+                A.add('handleSolution.no-file-wanted')
+            elif ms.startswith('stderr ') and c.get('outpath', 'ok') != 'ok' and not (isinstance(ending, tuple) and ending[0] in NO_HANDLER):
+                A.add('handleSolution.file-wanted-not-writable')
+                if ending is None:
+                    A.add('conclude.finished-retry-after-write-error')
+            if 'echoed=1' in ms or 'shown=1' in ms:
+                A.add('suppressMsg.false')
+            if 'shown=0' in ms:
+                A.add('suppressMsg.true')
+        for a_ in A:
+            arms[a_] = arms.get(a_, 0) + 1
         n_inferred += inferred
         replay = {'case': {k: v for k, v in c.items() if k not in ('id',)}, 'observed': obs_s, 'model': ml,
                   'scenario_line': lines[idx], 'cmdline': r.get('cmdline'), 'env': r.get('env'), 'stdout': r['out'][-600:], 'stderr': r['err'][-1500:],
@@ -1077,7 +1520,9 @@ def run(ck):
         sc = {'ending': ending, 'dims': (hd[0], hd[1]) if hd else None, 'outpath': c.get('outpath', 'ok'),
               'answer': c.get('answer', (0, True, True)), 'hdr_inconsistent': c09gen.header_inconsistent(c['nl']) if c.get('nl') else False,
               'undefined_lcons': c09gen.undefined_logical_cons(c['nl']) if c.get('nl') else False,
-              'cmdline': r.get('cmdline', ''),
+              'wants_nsol': any(t.startswith(('sol:stub', 'solstub', 'sol:count')) for t, _ in c.get('all_opts', [])),
+              'cmdline': r.get('cmdline', ''), 'alts': r.get('alts') if c.get('altsol') is not None else None,
+              'n_altsol_expected': (c['altsol'] if (c.get('altsol') is not None and ending is None) else None),
               'progress': 'report' if '"ev":"solve"' in r['log'] else ('convert' if '"ev":"begin"' in r['log'] else 'read-or-options'),
               'names_first_empty': any((c.get(e) or 'x').startswith(('\n', '\r')) for e in ('col', 'row'))}
         devs = oracle(c, sc, o)
@@ -1127,12 +1572,24 @@ def run(ck):
         'rule': 'distinct (model family, canonical outcome, ending (stage,raise), output-path state, -AMPL) tuples over all process runs',
         'table_rows_hit': {'stage_x_raise_pairs_observed': len(rows), 'of': len(STAGES) * len(KINDS)},
         'latent_rows_validated_by_injection_only': n_latent,
+        'model_arms': {'taken': sum(1 for a_ in ALL_ARMS if arms.get(a_)), 'of': len(ALL_ARMS),
+                       'never_taken': [a_ for a_ in ALL_ARMS if not arms.get(a_)], 'counts': {a_: arms.get(a_, 0) for a_ in ALL_ARMS}},
         'histogram': hist,
         'exhaustive': False,
         'sanitizers': 'ASan+UBSan (vptr check off: CRTP static_cast in FlatConverter ctor fires on every run), per-run timeout %ds' % TIMEOUT,
     })
+    try:
+        cj = json.load(open(os.path.join(VERIF, 'design_notes', 'coverage', 'C09.json')))
+        ck.cov['anchor_line_cov'] = cj['anchor_line_cov']
+        ck.cov['anchor_branch_cov'] = cj['anchor_branch_cov']
+        ck.cov['anchor_coverage_note'] = ('gcov line/branch coverage of the anchored files by the quick-tier stream, measured in the last VERIF_COVERAGE=1 run '
+                                          '(mechanism functions: line %.1f%%, branch %.1f%%); see design_notes/coverage/C09.md' %
+                                          (cj['mechanism_line_cov'], cj['mechanism_branch_cov']))
+    except Exception:
+        pass
     ck.log('outcomes: %s' % json.dumps(hist['outcome'], sort_keys=True))
     ck.log('endings: %s' % json.dumps(hist['ending'], sort_keys=True))
+    ck.log('model arms taken: %d/%d; never: %s' % (sum(1 for a_ in ALL_ARMS if arms.get(a_)), len(ALL_ARMS), [a_ for a_ in ALL_ARMS if not arms.get(a_)]))
     ck.log('deviations: %s   correspondence disagreements: %d   inferred endings: %d   rows hit: %d' %
            (json.dumps(hist['deviation'], sort_keys=True), n_dis, n_inferred, len(rows)))
     if not proof_ok:
